@@ -40,7 +40,7 @@ func genTree(c *simrt.Choices) []TreeEnt {
 			if chance(c, 1, 8, "odd-name") {
 				name = fmt.Sprintf("f %d (ü).dat", i)
 			}
-			t = append(t, TreeEnt{Rel: path.Join(parent, name), Kind: "file", Exec: chance(c, 1, 4, "exec"), Class: c.Choose(3, "class")})
+			t = append(t, TreeEnt{Rel: path.Join(parent, name), Kind: "file", Exec: chance(c, 1, 3, "exec"), Class: []int{0, 1, 1, 2}[c.Choose(4, "class")]})
 		case 4, 5:
 			d := path.Join(parent, fmt.Sprintf("d%d", i))
 			dirs = append(dirs, d)
@@ -48,7 +48,7 @@ func genTree(c *simrt.Choices) []TreeEnt {
 		case 6:
 			t = append(t, TreeEnt{Rel: path.Join(parent, fmt.Sprintf("l%d", i)), Kind: "link", Link: pick(c, "link", "f0.dat", "../x", "nowhere")})
 		case 7:
-			t = append(t, TreeEnt{Rel: path.Join(parent, fmt.Sprintf("e%d.dat", i)), Kind: "file", Class: 2})
+			t = append(t, TreeEnt{Rel: path.Join(parent, fmt.Sprintf("e%d.dat", i)), Kind: "file", Class: 2, Exec: chance(c, 1, 3, "exec")})
 		}
 	}
 	return t
@@ -57,10 +57,13 @@ func genTree(c *simrt.Choices) []TreeEnt {
 func genUniverse(c *simrt.Choices, g genCfg) *Universe {
 	u := &Universe{Files: map[string]string{}, Specs: map[string]*Spec{}, Aliases: map[string]string{}, Ext: map[string]string{"tool": "1.0", "cond": "ok"}}
 	allPkgs := []string{"", "a", "a/b", "lib", "a2", "a-gen", "a.x"}
-	npk := 1 + c.Choose(3, "npkgs")
+	npk := 1 + c.Choose(4, "npkgs")
 	pkgs := allPkgs[:1]
 	for i := 1; i < npk; i++ {
 		pkgs = append(pkgs, allPkgs[1+c.Choose(len(allPkgs)-1, "pkg")])
+	}
+	if g.Features["flatnames"] {
+		pkgs = append(pkgs, "a", "a/b")
 	}
 	// unique
 	seen := map[string]bool{}
@@ -101,8 +104,16 @@ func genUniverse(c *simrt.Choices, g genCfg) *Universe {
 			s.Name += "_test"
 		}
 		if g.Features["flatnames"] && p == "a" && chance(c, 1, 2, "flatname") {
-			// //a:b_tK and //a/b:tK flatten to the same string when separators are replaced
-			s.Name = fmt.Sprintf("b_t%d", c.Choose(n, "flat-k"))
+			// //a:b_X and //a/b:X flatten to the same string when separators are replaced
+			var inB []string
+			for _, l := range order {
+				if u.Specs[l].Pkg == "a/b" {
+					inB = append(inB, u.Specs[l].Name)
+				}
+			}
+			if len(inB) > 0 {
+				s.Name = "b_" + inB[c.Choose(len(inB), "flat-k")]
+			}
 		}
 		if _, dup := u.Specs[s.Label()]; dup {
 			s.Name = fmt.Sprintf("t%d", i)
@@ -594,7 +605,11 @@ func genEdit(c *simrt.Choices, u *Universe, g genCfg, snapshots []*Universe) (*U
 		if n.Ext[key] != "" {
 			n.Ext[key] = ""
 		} else {
-			n.Ext[key] = pick(c, "extfail-kind", "exit", "omit", "break", "slow")
+			if sp.TimeoutMS > 0 {
+				n.Ext[key] = pick(c, "extfail-kind", "slow", "slow", "exit")
+			} else {
+				n.Ext[key] = pick(c, "extfail-kind", "exit", "omit", "break", "slow")
+			}
 		}
 		ed.Target, ed.Detail = sp.Label(), n.Ext[key]
 	case "toggle-fail":
@@ -622,7 +637,14 @@ func genBuildReq(c *simrt.Choices, u *Universe, g genCfg) BuildReq {
 	case 2:
 		req.Patterns = []string{labels[c.Choose(len(labels), "ptarget")]}
 	case 3:
-		p := pkgs[c.Choose(len(pkgs), "ppkg")]
+		// a package that has targets, or a parent directory of one (//a/... with only //a/b defined)
+		pre := append([]string{}, pkgs...)
+		for _, p := range pkgs {
+			if d := path.Dir(p); d != "." && d != "" {
+				pre = append(pre, d)
+			}
+		}
+		p := pre[c.Choose(len(pre), "ppkg")]
 		if p == "" {
 			req.Patterns = []string{"//..."}
 		} else {
